@@ -16,12 +16,12 @@ PROPS = {
               "Gx.C02.truthy_toDbl", "Gx.C02.int_division_truncates", "Gx.C02.pow_int_exponent",
               "Gx.checkRhs_sound", "Gx.checkMonitor_sound", "Gx.checkScheme_sound", "Gx.checkRhs_progress"] + COMMON,
              ["Gx.Pins.argument_maps", "Gx.Pins.orders_are_permutations"],
-             ns.make_run(be.c02_case, 22, 800, ns.scheme_cfg, quick_s=170), be.c02_case),
+             ns.make_run(be.c02_case, 24, 800, ns.scheme_cfg, extra=be.cond_extra, quick_s=170), be.c02_case),
     "C03": P("GotranxProofs.Properties.C03",
              ["Gx.C03.jaxReturn_sound", "Gx.C03.arity_mismatch", "Gx.C03.rhs_sound", "Gx.C03.num_return_values_extracted",
               "Gx.checkMonitor_sound", "Gx.checkScheme_sound"] + COMMON,
              ["Gx.Pins.argument_maps"],
-             ns.make_run(be.c03_case, 10, 150, be.big_cfg, extra=be.c03_extra, quick_s=170, case_s=120), be.c03_case),
+             ns.make_run(be.c03_case, 10, 150, be.big_cfg, extra=be.cond_extra, quick_s=170, case_s=120), be.c03_case),
     "C04": P("GotranxProofs.Properties.C04 GotranxProofs.GenValid",
              ["Gx.GenValid.genRhs_valid", "Gx.GenValid.genEuler_valid", "Gx.GenValid.slot_map_self", "Gx.C04.index_bijective", "Gx.C04.slotOf_iff", "Gx.C04.layout_counts", "Gx.C04.init_sound", "Gx.C04.init_unknown_key",
               "Gx.C04.monitor_slots", "Gx.C04.rhs_slots", "Gx.C04.formals_are_permutations", "Gx.checkMonitor_sound", "Gx.checkRhs_sound"] + COMMON,
@@ -31,7 +31,7 @@ PROPS = {
              ["Gx.GenValid.genEuler_valid", "Gx.C05.euler_eq_states_plus_dt_rhs", "Gx.C05.eval_eulerStore", "Gx.C05.eval_euler_printed", "Gx.C05.euler_dt_zero",
               "Gx.C05.inputs_untouched", "Gx.C05.euler_aliases", "Gx.checkScheme_sound", "Gx.checkRhs_sound_named"] + COMMON,
              ["Gx.Pins.scheme_aliases", "Gx.Pins.scheme_members_accepted"],
-             ns.make_run(ns.c05_case, 40, 1500, ns.scheme_cfg), ns.c05_case),
+             ns.c05_run, ns.c05_case),
     "C06": P("GotranxProofs.Properties.C06",
              ["Gx.C06.eval_rl_store", "Gx.C06.rl_fallback", "Gx.C06.rl_exponential", "Gx.C06.rlStore_guarded", "Gx.C06.rlStore_zero",
               "Gx.C06.diff_var_other", "Gx.C06.diff_var_self", "Gx.C06.grl_aliases_and_delta", "Gx.checkScheme_sound",
@@ -63,7 +63,7 @@ PROPS = {
     "C14": P("GotranxProofs.Properties.C14",
              ["Gx.C14.evalVec_pointwise", "Gx.C14.scalarOnly_fails", "Gx.C14.scalarOnly_single", "Gx.C14.allSome_map", "Gx.C14.no_source_construct_scalarOnly"],
              [],
-             ns.make_run(be.c14_case, 25, 1000, be.c14_cfg, extra=be.c03_extra), be.c14_case),
+             ns.make_run(be.c14_case, 25, 1000, be.c14_cfg, extra=be.cond_extra), be.c14_case),
     "C11": P("GotranxProofs.Properties.C11",
              ["Gx.C11.writer_relations_in_grammar", "Gx.C11.writer_connectives_in_grammar", "Gx.C11.reload_preserves_values"],
              ["Gx.Pins.relop_table", "Gx.Pins.writer_overrides", "Gx.Pins.grammar_names", "Gx.Pins.grammar_keywords", "Gx.Pins.grammar_ladder"],
